@@ -3,8 +3,8 @@
    exists, branch by branch:
      - dict_ is a list of Z, low degree first; modulo_ is the parameter [p] of every
        function (mixing two moduli throws before anything else happens; not modelled);
-     - mp_fdiv_r is [Z.modulo] (floor remainder, sign of the divisor), the `%=` of
-       integer_class used by gf_eval is [Z.rem] (truncation), mp_invert is [zinvert];
+     - mp_fdiv_r is [Z.modulo] (floor remainder, sign of the divisor), mp_invert is [zinvert],
+       mp_get_ui keeps the low 64 bits;
      - every indexed access into a coefficient vector that the C++ performs with an
        index computed at run time is a *checked* access here ([vget]/[vset] => ErrOOB);
      - `while` loops run on explicit fuel (ErrFuel), exceptions are ErrExn codes;
@@ -162,24 +162,21 @@ Definition gf_sub (p : Z) (a b : gf) : gf :=
   end.
 
 (* operator+=(const integer_class &other):
-     if (dict_.empty() or other == 0) return *this;      <- the empty polynomial stays empty
+     if (other == 0) return *this;
+     if (dict_.empty()) { c = other mod p; if (c != 0) dict_.push_back(c); return *this; }
      dict_[0] = (dict_[0] + other) mod p; if (size == 1) gf_istrip();                     *)
 Definition gf_add_int (p : Z) (a : gf) (c : Z) : gf :=
-  match a with
-  | [] => []
-  | x :: r =>
-      if c =? 0 then a
-      else
+  if c =? 0 then a
+  else
+    match a with
+    | [] => let c' := c mod p in if c' =? 0 then [] else [c']
+    | x :: r =>
         let t := (x + c) mod p in
         match r with [] => istrip [t] | _ => t :: r end
-  end.
+    end.
 
 (* operator-=(const integer_class &other) { return *this += (-1 * other); } *)
 Definition gf_sub_int (p : Z) (a : gf) (c : Z) : gf := gf_add_int p a (-1 * c).
-
-(* the guard under which operator+=(integer) is an addition *)
-Definition guard_add_int (a : gf) (c : Z) : bool :=
-  match a with [] => c =? 0 | _ => true end.
 
 (* ---------- multiplication ---------- *)
 (* for (auto &arg : dict_) if (arg != 0) { arg *= c; mp_fdiv_r(arg, arg, modulo_); }  gf_istrip(); *)
@@ -443,14 +440,11 @@ Fixpoint diff_loop (p : Z) (i : Z) (l : list Z) : list Z :=
 
 Definition gf_diff (p : Z) (f : gf) : gf := istrip (diff_loop p 1 (tl f)).
 
-(* for (rit = rbegin; ...) { res *= a; res += *rit; res %= modulo_; }   `%=` truncates *)
+(* for (rit = rbegin; ...) { res *= a; res += *rit; mp_fdiv_r(res, res, modulo_); } *)
 Definition gf_eval (p : Z) (f : gf) (a : Z) : Z :=
-  fold_right (fun c r => Z.rem (r * a + c) p) 0 f.
+  fold_right (fun c r => (r * a + c) mod p) 0 f.
 
 Definition gf_multi_eval (p : Z) (f : gf) (v : list Z) : list Z := map (gf_eval p f) v.
-
-(* the guard under which gf_eval returns the canonical representative *)
-Definition guard_eval (a : Z) : bool := 0 <=? a.
 
 (* ---------- composition modulo this ---------- *)
 (* out = from_vec({g.back()}); for (i = size-2; ; --i) { out *= h; out += g[i]; out %= this; if (i == 0) break; } *)
